@@ -231,7 +231,12 @@ func (x *c10World) apply(ev string) {
 	case "relabel":
 		x.Sim.Edit(kit.Thing, "n1", "p", func(o map[string]interface{}) {
 			if kit.Str(o, "metadata", "labels", "app") == "x" {
-				kit.Labels(o, "app", "y")
+				if x.cfg.Rolling {
+					// the last label is taken away: the parent has no metadata.labels at all any more
+					delete(o["metadata"].(map[string]interface{}), "labels")
+				} else {
+					kit.Labels(o, "app", "y")
+				}
 			} else {
 				kit.Labels(o, "app", "x")
 			}
